@@ -83,6 +83,7 @@ ARCH_INFO = {
     "x86_64": {"attrib": 64, "jitarch": "x86", "pcregs": ("RIP",)},
     "arml": {"attrib": "l", "jitarch": "arm", "pcregs": ("PC",)},
     "mips32l": {"attrib": "l", "jitarch": "mips32", "pcregs": ("PC", "PC_FETCH")},
+    "aarch64l": {"attrib": "l", "jitarch": "aarch64", "pcregs": ("PC",)},
     # big-endian twins: same programs, instruction words and data accesses in the other byte order
     "armb": {"attrib": "b", "jitarch": "arm", "pcregs": ("PC",)},
     "mips32b": {"attrib": "b", "jitarch": "mips32", "pcregs": ("PC", "PC_FETCH")},
@@ -101,7 +102,9 @@ def family(arch):
 JCC = {"JO": 0, "JNO": 1, "JB": 2, "JAE": 3, "JZ": 4, "JNZ": 5, "JBE": 6, "JA": 7, "JS": 8, "JNS": 9,
        "JP": 10, "JNP": 11, "JL": 12, "JGE": 13, "JLE": 14, "JG": 15}
 REG32 = {"EAX": 0, "ECX": 1, "EDX": 2, "EBX": 3, "ESP": 4, "EBP": 5, "ESI": 6, "EDI": 7}
-LABEL_RE = re.compile(r"^(L\d+|cell\d+|sub\d+|end|main)$")
+REG32.update({"RAX": 0, "RCX": 1, "RDX": 2, "RBX": 3, "RSP": 4, "RBP": 5, "RSI": 6, "RDI": 7})   # MOV r64, label == B8+r imm32 (zero-extended)
+REG8 = {"AL": 0, "CL": 1, "DL": 2, "BL": 3}
+LABEL_RE = re.compile(r"^(L\d+|cell\d+|jc\d+|sub\d+|end|main)$")
 ASM_CACHE_FILE = os.path.join(os.path.dirname(os.path.abspath(__file__)), "asmcache_x86_32.json")
 
 
@@ -131,12 +134,24 @@ class StatementAssembler(object):
         e = env()
         m = e.machine(self.arch)
         try:
-            ins = m.mn.fromstring(text, e.LocationDB(), ARCH_INFO[self.arch]["attrib"])
-            cands = m.mn.asm(ins)
+            if self.arch == "aarch64l" and text == "RET":
+                cands = [b"RET"]
+            else:
+                ins = m.mn.fromstring(text, e.LocationDB(), ARCH_INFO[self.arch]["attrib"])
+                cands = m.mn.asm(ins)
         except Exception as exc:
             raise Discard("cannot assemble %r: %s" % (text, exc))
         if not cands:
             raise Discard("cannot assemble %r" % text)
+        if self.arch == "aarch64l":
+            if text == "RET":
+                cands = [bytes.fromhex("c0035fd6")]
+            else:
+                norm = lambda t: "".join(str(t).upper().split())
+                same = [c for c in cands if norm(m.mn.dis(c, "l")) == norm(text)]
+                if not same:
+                    raise Discard("no candidate of %r reads back as itself" % text)
+                cands = same
         b = min(cands, key=lambda c: (len(c), c))
         self.cache[text] = b
         self.new[text] = b
@@ -194,7 +209,7 @@ class ProgramFixed4(object):
                 continue
             op, _, rest = line.partition(" ")
             target = rest.split(",")[-1].strip()
-            if LABEL_RE.match(target) and (op.startswith("B") or op in ("J", "JAL")):
+            if LABEL_RE.match(target) and (op.startswith("B") or op in ("J", "JAL", "CBZ", "CBNZ")):
                 items.append(("branch", (op, [x.strip() for x in rest.split(",")[:-1]], target), line))
             else:
                 b = sa.asm(line)
@@ -226,7 +241,18 @@ class ProgramFixed4(object):
                 if target not in labels:
                     raise Discard("unknown label %s" % target)
                 dst = labels[target]
-                if family(arch) == "arml":
+                if arch == "aarch64l":
+                    rel = (dst - off) >> 2
+                    if op in ("B", "BL"):
+                        word = (0x94000000 if op == "BL" else 0x14000000) | (rel & 0x3FFFFFF)
+                    elif op.startswith("B.") and op[2:] in ARM_COND and op[2:]:
+                        word = 0x54000000 | ((rel & 0x7FFFF) << 5) | ARM_COND[op[2:]]
+                    elif op in ("CBZ", "CBNZ") and len(regs) == 1 and regs[0][0] in "XW" and regs[0][1:].isdigit():
+                        word = (0xB4000000 if regs[0][0] == "X" else 0x34000000) | (0x01000000 if op == "CBNZ" else 0) | \
+                            ((rel & 0x7FFFF) << 5) | int(regs[0][1:])
+                    else:
+                        raise Discard("bad branch %r" % text)
+                elif family(arch) == "arml":
                     link = 1 if op.startswith("BL") and op[2:] in ARM_COND else 0
                     cond = op[2:] if link else op[1:]
                     if cond not in ARM_COND:
@@ -278,12 +304,18 @@ class ProgramX86(object):
             elif op == "MOV" and "," in rest and rest.split(",")[0].strip() in REG32 and \
                     LABEL_RE.match(rest.split(",")[1].strip()):
                 items.append(("movlabel", (REG32[rest.split(",")[0].strip()], rest.split(",")[1].strip()), 5, line))
-            elif op == "MOV" and rest.startswith("BYTE PTR [cell"):
+            elif op == "JMPS" and LABEL_RE.match(rest):
+                items.append(("jmps", rest, 2, line))
+            elif op == "MOV" and rest.startswith(("BYTE PTR [cell", "BYTE PTR [jc")):
                 # MOV BYTE PTR [cellN+k], 0xVV
                 inside = rest[rest.index("[") + 1:rest.index("]")]
                 name, _, k = inside.partition("+")
-                val = int(rest.split(",")[1].strip(), 16)
-                items.append(("movbyte", (name, int(k or 0), val), 7, line))
+                src = rest.split(",")[1].strip()
+                if src in REG8:
+                    # MOV BYTE PTR [cellN+k], r8: the stored value depends on the state of the run
+                    items.append(("movbytereg", (name, int(k or 0), REG8[src]), 6, line))
+                else:
+                    items.append(("movbyte", (name, int(k or 0), int(src, 16)), 7, line))
             else:
                 b = sa.asm(line)
                 items.append(("raw", b, len(b), line))
@@ -312,12 +344,19 @@ class ProgramX86(object):
                     buf += bytes([0x0F, 0x80 + payload[0]]) + ((labels[payload[1]] - nxt) & 0xFFFFFFFF).to_bytes(4, "little")
                 elif kind == "jmp":
                     buf += b"\xE9" + ((labels[payload] - nxt) & 0xFFFFFFFF).to_bytes(4, "little")
+                elif kind == "jmps":
+                    rel = labels[payload] - nxt
+                    if not 0 <= rel < 0x80:
+                        raise Discard("short jump out of range")
+                    buf += bytes([0xEB, rel])
                 elif kind == "call":
                     buf += b"\xE8" + ((labels[payload] - nxt) & 0xFFFFFFFF).to_bytes(4, "little")
                 elif kind == "movlabel":
                     buf += bytes([0xB8 + payload[0]]) + labels[payload[1]].to_bytes(4, "little")
                 elif kind == "movbyte":
                     buf += b"\xC6\x05" + (labels[payload[0]] + payload[1]).to_bytes(4, "little") + bytes([payload[2]])
+                elif kind == "movbytereg":
+                    buf += bytes([0x88, 0x05 | (payload[2] << 3)]) + (labels[payload[0]] + payload[1]).to_bytes(4, "little")
             except KeyError as exc:
                 raise Discard("unknown label %s" % exc)
             off = nxt
@@ -360,7 +399,42 @@ def gen_program_x86(rng, feat, bits=32):
         page = rng.choice([D0, D0, D1])
         return page + rng.choice([0, 4, 8, 0x10, 0x21, 0x40, 0x7c])
 
+    SUB8 = {"EAX": "AL", "EBX": "BL", "ECX": "CL", "EDX": "DL"}
+    SUB16 = {"EAX": "AX", "EBX": "BX", "ECX": "CX", "EDX": "DX", "ESI": "SI", "EDI": "DI"}
+    CCS = ["Z", "NZ", "B", "AE", "S", "NS", "BE", "A", "L", "GE", "LE", "G", "O", "PE"]
+
+    def alu2(regs):
+        """Less common integer instructions (32-bit mode): counts taken from CL and wider than the operand, narrow
+        operands, double shifts, bit scans and tests, conditional moves, implicit EDX:EAX operands."""
+        a, b = rng.choice(regs), rng.choice(regs)
+        k = rng.choice([0, 0, 0, 1, 1, 2, 3, 4, 5, 6, 7, 8, 9, 10, 11])
+        if k == 0:
+            view = rng.choice([a, SUB16.get(a, a), SUB8.get(a, a)])
+            return "%s %s, CL" % (rng.choice(["SAR", "SHL", "SHR", "ROL", "ROR", "RCL", "RCR"]), view)
+        if k == 1:
+            view = rng.choice([SUB16.get(a, a), SUB8.get(a, a), a])
+            return "%s %s, %d" % (rng.choice(["SAR", "SHL", "SHR", "ROL", "ROR", "RCL", "RCR"]), view, rng.choice([1, 7, 9, 15, 17, 31]))
+        if k == 2:
+            return "%s %s, %s, %s" % (rng.choice(["SHLD", "SHRD"]), a, b, rng.choice(["CL", "0x5", "0x1f"]))
+        if k == 3:
+            return "%s %s, %s" % (rng.choice(["BSF", "BSR"]), a, b)
+        if k == 4:
+            return "MOVSX %s, %s" % (a, rng.choice([SUB8.get(b, "AL"), SUB16.get(b, "AX")]))
+        if k == 5:
+            return "CMOV%s %s, %s" % (rng.choice(CCS), a, b)
+        if k == 6:
+            return "SET%s %s" % (rng.choice(CCS), SUB8.get(a, SUB8.get(regs[0], "AL")) if (a in SUB8 or regs[0] in SUB8) else "CMOVZ %s, %s" % (a, b))
+        if k == 7:
+            return rng.choice(["BSWAP %s" % a, "XADD %s, %s" % (a, b), "IMUL %s, %s, 0x%x" % (a, b, rng.choice([3, 0x7f, 0xff]))])
+        if k == 8:
+            return "%s %s, %s" % (rng.choice(["BT", "BTS", "BTR", "BTC"]), a, rng.choice([b, "0x3", "0x1f"]))
+        if "EAX" in regs and "EDX" in regs:
+            return rng.choice(["CDQ", "MUL %s" % b, "IMUL %s" % b, "CMPXCHG %s, %s" % (a, b), "CBW", "CWDE", "LAHF", "SAHF"])
+        return "SAR %s, %d" % (a, rng.choice([1, 31]))
+
     def alu(regs):
+        if bits == 32 and "exotic" in feat and (rng.random() < 0.3 or "exotic_only" in feat):
+            return alu2(regs)
         op = rng.choice(["MOV", "ADD", "SUB", "XOR", "AND", "OR", "INC", "DEC", "NOT", "NEG", "SHL", "SHR", "LEA", "IMUL", "XCHG", "CMP", "TEST", "MOVZX", "ROL", "ADC", "SBB"])
         a = rng.choice(regs)
         b = rng.choice(regs)
@@ -438,6 +512,26 @@ def gen_program_x86(rng, feat, bits=32):
                 out.append("PUSHAD")
                 out.extend(body(rng.randint(0, 2), regs, depth + 1) if depth < 2 else [])
                 out.append("POPAD")
+            elif r < 0.70 and "stack" in feat and "exotic" in feat and bits == 32 and rng.random() < 0.5:
+                # one instruction reading and writing the same stack slot
+                a = rng.choice(regs)
+                k = rng.randrange(3)
+                if k == 0:
+                    out.append("PUSH DWORD PTR [ESP+0xFFFFFFFC]")
+                    out.append("POP %s" % a)
+                elif k == 1:
+                    out.append("PUSH %s" % a)
+                    out.append("ADD DWORD PTR [ESP], %s" % rng.choice(regs))
+                    out.append("POP DWORD PTR [ESP+0xFFFFFFFC]")
+                elif depth < 2 and "call" in feat:
+                    # call through the slot that receives the return address
+                    name = "sub%d" % len(subs)
+                    subs.append(name)
+                    out.append("MOV %s, %s" % (a, name))
+                    out.append("MOV DWORD PTR [ESP+0xFFFFFFFC], %s" % a)
+                    out.append("CALL DWORD PTR [ESP+0xFFFFFFFC]")
+                else:
+                    out.append("XCHG DWORD PTR [0x%x], %s" % (data_addr(4), a))
             elif r < 0.70 and "stack" in feat:
                 a, b = rng.choice(regs), rng.choice(regs)
                 out.append("PUSH %s" % a)
@@ -479,13 +573,18 @@ def gen_program_x86(rng, feat, bits=32):
                 out.append(alu(regs))
         return out
 
-    n = rng.randint(3, 14)
+    n = rng.randint(12, 30) if "exotic_only" in feat else rng.randint(3, 14)
     main = body(n, free, 0)
     if "rep_sure" in feat and bits == 32:
         snippet = ["MOV ESI, 0x%x" % (D0 + rng.choice([0, 4, 0x20])), "MOV EDI, 0x%x" % (rng.choice([D0 + 0x100, D1 - 3, D1 + 0x10])),
                    "MOV ECX, %d" % rng.randint(1, 6), "CLD", rng.choice(["REP MOVSB", "REP STOSB", "REP MOVSD"])]
         main = (snippet + main) if rng.random() < 0.5 else (main + snippet)
-    if "smc" in feat:
+    quiet = "smc" in feat and rng.random() < 0.25
+    if quiet:
+        # no guest store into code at all: only the host patches this program (its tail cell).  A pending host
+        # write is otherwise swept up by the next guest-triggered invalidation, which hides how it was handled
+        pass
+    elif "smc" in feat:
         # code cells: MOV reg, imm32 whose immediate guest stores overwrite, then log
         ncell = rng.randint(2, 5)
         for i in range(ncell):
@@ -495,6 +594,14 @@ def gen_program_x86(rng, feat, bits=32):
             seq.append("cell%d:" % i)
             seq.append("MOV EAX, 0x%x" % (0x11110000 + i))          # B8 imm32: imm at cell+1
             seq.append("MOV DWORD PTR [0x%x], EAX" % (D0 + 0x200 + 4 * i))
+        jcell = rng.random() < 0.5
+        if jcell:
+            # a patched jump: JMP SHORT over a five-byte instruction that is dead (never translated) until a guest store
+            # zeroes the displacement.  While it is dead, the displacement byte is the last byte of a block *and* of a
+            # translated range, inside the loop over the cells
+            at = 3 * rng.randrange(ncell + 1)
+            lj = lab()
+            seq[at:at] = ["jc7:", "JMPS %s" % lj, "XOR EAX, 0x5a5a5a5a", "%s:" % lj, "MOV DWORD PTR [0x%x], EAX" % (D0 + 0x220)]
         head = rng.random() < 0.5
         if head:
             # a cell in the head of the program: it is executed once, belongs to the entry block only,
@@ -504,7 +611,12 @@ def gen_program_x86(rng, feat, bits=32):
         for _ in range(rng.randint(1, 4)):
             tgt = 9 if head and rng.random() < 0.35 else rng.randrange(ncell)
             byte = rng.randint(1, 4)
-            writers.append("MOV BYTE PTR [cell%d+%d], 0x%x" % (tgt, byte, rng.getrandbits(8)))
+            writers.append("MOV BYTE PTR [cell%d+%d], %s" % (tgt, byte, "0x%x" % rng.getrandbits(8) if rng.random() < 0.6
+                                                            else rng.choice(["BL", "CL", "DL", "AL"])))
+        if jcell:
+            writers.insert(rng.randint(0, len(writers)), "MOV BYTE PTR [jc7+1], 0x0")
+            if rng.random() < 0.4:
+                writers.insert(rng.randint(0, len(writers)), "MOV BYTE PTR [jc7+1], 0x5")
         lcell = lab()
         pos = rng.choice(["before", "between", "loop", "nested", "nested"])
         if pos == "before":
@@ -520,12 +632,22 @@ def gen_program_x86(rng, feat, bits=32):
         else:
             cnt = "EDX"
             main = main + ["MOV %s, 2" % cnt, "%s:" % lcell] + seq + writers + ["DEC %s" % cnt, "JNZ %s" % lcell]
+    tail = "smc" in feat and (quiet or rng.random() < 0.5)
+    if tail:
+        # a cell at the very end of the translated code: the last byte of its immediate is the last byte of the
+        # last translated range (the end address carries a breakpoint and is never translated).  It runs once per
+        # pass over the program, so only a warm start, a restart or a host write sees it translated before it is patched
+        if not quiet and rng.random() < 0.5:          # otherwise only the host writes to it
+            main = ["MOV BYTE PTR [cell8+%d], %s" % (rng.choice([4, 4, 3, 1]), rng.choice(["BL", "CL", "DL", "0x%x" % rng.getrandbits(8)]))] + main
     lines.extend(main)
-    lines.append("JMP end")
+    lines.append("JMP cell8" if tail else "JMP end")
     for name in subs:
         lines.append("%s:" % name)
         lines.extend(body(rng.randint(1, 3), free[:3], 2))
         lines.append("RET")
+    if tail:
+        lines.append("cell8:")
+        lines.append("MOV EAX, 0x11110008")
     lines.append("end:")
     lines.append("NOP")
     return lines
@@ -543,7 +665,28 @@ def gen_program_arm(rng, feat):
         n_label[0] += 1
         return "L%d" % n_label[0]
 
+    def alu2():
+        a, b, c, d = rng.choice(R), rng.choice(R), rng.choice(R), rng.choice(R)
+        k = rng.choice([0, 0, 1, 1, 1, 2, 3, 4, 5, 6])
+        sh = rng.choice(["LSL", "LSR", "ASR", "ASR", "ROR"])
+        if k == 0:
+            return "%s %s, %s, %s %s %s" % (rng.choice(["ADD", "SUB", "EOR", "ORR", "AND", "ADDS", "RSB"]), a, b, c, sh, d)
+        if k == 1:
+            return "%s %s, %s %s %s" % (rng.choice(["MOV", "MOVS", "MVN"]), a, b, sh, rng.choice([c, "0x1f", "0x1"]))
+        if k == 2:
+            return "MLA %s, %s, %s, %s" % (a, b if b != a else R[(R.index(a) + 1) % 4], c, d)
+        if k == 3:
+            hi = R[(R.index(a) + 1) % 4]
+            return "%s %s, %s, %s, %s" % (rng.choice(["UMULL", "SMULL"]), a, hi, c, d)
+        if k == 4:
+            return rng.choice(["CLZ %s, %s" % (a, b), "REV %s, %s" % (a, b), "RSC %s, %s, %s" % (a, b, c)])
+        if k == 5:
+            return "UBFX %s, %s, 0x%x, 0x%x" % (a, b, rng.choice([0, 4, 16]), rng.choice([1, 8, 16]))
+        return "MOV %s, %s RRX" % (a, b)
+
     def alu():
+        if "exotic" in feat and (rng.random() < 0.3 or "exotic_only" in feat):
+            return alu2()
         a, b, c = rng.choice(R), rng.choice(R), rng.choice(R)
         op = rng.choice(["ADD", "SUB", "EOR", "ORR", "AND", "RSB", "ADC", "SBC", "BIC", "MOV", "MVN", "MUL", "CMP", "TST",
                          "ADDS", "SUBS", "MOVS", "ADDEQ", "MOVNE", "SUBGT", "ADDCS"])
@@ -608,7 +751,7 @@ def gen_program_arm(rng, feat):
                 out.append(alu())
         return out
 
-    lines.extend(body(rng.randint(3, 14), 0))
+    lines.extend(body(rng.randint(12, 30) if "exotic_only" in feat else rng.randint(3, 14), 0))
     lines.append("B end")
     for name in subs:
         lines.append("%s:" % name)
@@ -616,6 +759,134 @@ def gen_program_arm(rng, feat):
         lines.append("BX LR")
     lines.append("end:")
     lines.append("MOV R0, R0")
+    return lines
+
+
+def gen_program_a64(rng, feat):
+    """Terminating AArch64 (little endian) program.  X10 = data page 0, X11 = data page 1, X9 = straddling base,
+    X8 = read-only page (initial registers); X4/X5 loop counters; X0-X3 (and their W views) scratch."""
+    lines = ["main:"]
+    n_label = [0]
+    subs = []
+
+    def lab():
+        n_label[0] += 1
+        return "L%d" % n_label[0]
+
+    def reg(w=None):
+        w = rng.choice("XXW") if w is None else w
+        return "%s%d" % (w, rng.randrange(4))
+
+    def alu():
+        w = rng.choice("XXW")
+        a, b, c = reg(w), reg(w), reg(w)
+        op = rng.choice(["ADD", "SUB", "EOR", "ORR", "AND", "ADDS", "SUBS", "ADC", "CSEL", "CSINC", "MADD", "NEG", "MVN", "MOV",
+                         "MOVZ", "CMP", "TST", "SHIFTED"] + (["UDIV", "SDIV"] if "exc" in feat else []))
+        if op in ("UDIV", "SDIV"):
+            # the divisor is X3/W3 (the host's handler supplies one when it is zero)
+            pre = rng.choice(["AND X3, X3, 0x1", "EOR X3, X3, X3", "MOVZ X3, 0x5"])
+            d = reg(w)
+            while d[1:] == "3":
+                d = reg(w)
+            return "%s\n%s %s, %s, %s3" % (pre, op, d, b, w)
+        if op in ("NEG", "MVN", "MOV"):
+            return "%s %s, %s" % (op, a, b)
+        if op == "MOVZ":
+            return "MOVZ %s, 0x%x" % (a, rng.choice([0, 1, 0x12, 0xFFFF]))
+        if op in ("CMP", "TST"):
+            return "%s %s, %s" % (op, a, b if op == "TST" or rng.random() < 0.5 else "0x%x" % rng.choice([0, 1, 7]))
+        if op in ("CSEL", "CSINC"):
+            return "%s %s, %s, %s, %s" % (op, a, b, c, rng.choice(["EQ", "NE", "CS", "CC", "MI", "PL", "GE", "LT", "GT", "LE", "HI", "LS"]))
+        if op == "MADD":
+            return "MADD %s, %s, %s, %s" % (a, b, c, reg(w))
+        if op == "SHIFTED":
+            return "%s %s, %s, %s %s 0x%x" % (rng.choice(["ADD", "SUB", "EOR", "ORR", "AND"]), a, b, c, rng.choice(["LSL", "LSR", "ASR"]),
+                                              rng.choice([1, 4, 8, 31]))
+        if op == "ADC":
+            return "ADC %s, %s, %s" % (a, b, c)
+        if op in ("EOR", "ORR", "AND"):
+            return "%s %s, %s, %s" % (op, a, b, rng.choice([c, "0x%x" % rng.choice([1, 7, 0xFF, 0xFF00])]))
+        return "%s %s, %s, %s" % (op, a, b, rng.choice([c, "0x%x" % rng.choice([0, 1, 7, 0xFF])]))
+
+    def mem():
+        n = rng.randrange(4)
+        base, off = rng.choice([("X10", rng.choice([0, 8, 0x10, 0x40])), ("X11", rng.choice([0, 8, 0x10, 0x78])),
+                                ("X9", rng.choice([0, 1, 2, -3])) if "straddle" in feat else ("X10", 8),
+                                ("X8", rng.choice([0, 8])) if "ro" in feat else ("X10", 0x10)])
+        if "multi" in feat and rng.random() < 0.2 and base != "X9" and base != "X8":
+            return "%s X%d, X%d, [%s, 0x%x]" % (rng.choice(["STP", "LDP"]), n, (n + 1) % 4, base, off & ~7)
+        store = rng.random() < 0.5 and base != "X8"
+        if base == "X9" or off % 8:
+            # unscaled forms take any byte offset
+            kind = rng.choice(["X", "W"])
+            return "%s %s%d, [%s, 0x%x]" % ("STUR" if store else "LDUR", kind, n, base, off & 0xFFFFFFFFFFFFFFFF)
+        kind = rng.choice(["X", "W", "B", "H", "SW"])
+        if kind in ("X", "W"):
+            return "%s %s%d, [%s, 0x%x]" % ("STR" if store else "LDR", kind, n, base, off)
+        if kind == "SW":
+            return "LDRSW X%d, [%s, 0x%x]" % (n, base, off)
+        return "%s%s W%d, [%s, 0x%x]" % ("STR" if store else "LDR", kind, n, base, off)
+
+    _mem = mem
+
+    def mem():
+        return _mem().replace(", 0x0]", "]")
+
+    def body(n, depth):
+        out = []
+        for _ in range(n):
+            if "exc" in feat and rng.random() < 0.08:
+                out.append("SVC 0x%x" % rng.choice([0, 1, 5]))
+                continue
+            r = rng.random()
+            if r < 0.4 or not feat:
+                out.extend(alu().split("\n"))
+            elif r < 0.62 and "mem" in feat:
+                out.append(mem())
+            elif r < 0.70 and "stack" in feat:
+                a, b = rng.sample(range(4), 2)
+                if rng.random() < 0.5:
+                    out.append("STP X%d, X%d, [SP, 0xFFFFFFFFFFFFFFF0]!" % (a, b))
+                    out.extend(body(rng.randint(0, 2), depth + 1) if depth < 2 else [])
+                    out.append("LDP X%d, X%d, [SP], 0x10" % tuple(rng.sample(range(4), 2)))
+                else:
+                    out.append("STR X%d, [SP, 0xFFFFFFFFFFFFFFF0]!" % a)
+                    out.extend(body(rng.randint(0, 2), depth + 1) if depth < 2 else [])
+                    out.append("LDR X%d, [SP], 0x10" % b)
+            elif r < 0.76 and "call" in feat and depth < 2:
+                name = "sub%d" % len(subs)
+                subs.append(name)
+                out.append("BL %s" % name)
+            elif r < 0.88 and "branch" in feat:
+                l = lab()
+                if rng.random() < 0.3:
+                    out.append("%s %s, %s" % (rng.choice(["CBZ", "CBNZ"]), reg(), l))
+                else:
+                    out.append("CMP %s, 0x%x" % (reg(), rng.choice([0, 1, 2, 7])))
+                    out.append("B.%s %s" % (rng.choice(["EQ", "NE", "CS", "CC", "MI", "PL", "HI", "LS", "GE", "LT", "GT", "LE"]), l))
+                out.extend(body(rng.randint(1, 3), depth + 1) if depth < 3 else alu().split("\n"))
+                out.append("%s:" % l)
+            elif r < 0.96 and "loop" in feat and depth < 2:
+                cnt = "X4" if depth == 0 else "X5"
+                l = lab()
+                out.append("MOVZ %s, 0x%x" % (cnt, rng.randint(1, 4)))
+                out.append("%s:" % l)
+                out.extend(body(rng.randint(1, 4), depth + 1))
+                out.append("SUBS %s, %s, 0x1" % (cnt, cnt))
+                out.append("B.NE %s" % l)
+            else:
+                out.extend(alu().split("\n"))
+        return out
+
+    lines.extend(body(rng.randint(3, 14), 0))
+    lines.append("B end")
+    for name in subs:
+        lines.append("%s:" % name)
+        for _ in range(rng.randint(1, 3)):
+            lines.extend(alu().split("\n"))
+        lines.append("RET")
+    lines.append("end:")
+    lines.append("NOP")
     return lines
 
 
@@ -715,7 +986,9 @@ def gen_program(arch, rng, feat):
         return gen_program_arm(rng, feat)
     if arch == "mips32l":
         return gen_program_mips(rng, feat)
-    return gen_program_x86(rng, feat)
+    if arch == "aarch64l":
+        return gen_program_a64(rng, feat)
+    return gen_program_x86(rng, feat, bits=64 if arch == "x86_64" else 32)
 
 
 def default_regs(arch, rng):
@@ -729,6 +1002,14 @@ def default_regs(arch, rng):
         regs = {r: rng.getrandbits(32) for r in ["T0", "T1", "T2", "T3", "V0", "A0", "A1", "T4"]}
         regs.update({"S0": D0, "S1": D1, "S2": D1 - 2, "S3": RO, "S4": 0, "S5": 0})
         return regs
+    if arch == "aarch64l":
+        regs = {"X%d" % i: rng.getrandbits(64) if rng.random() < 0.5 else rng.getrandbits(32) for i in range(4)}
+        regs.update({"X10": D0, "X11": D1, "X9": D1 - 2, "X8": RO, "X4": 0, "X5": 0})
+        return regs
+    if arch == "x86_64":
+        # upper halves populated in half of the registers: 32-bit operations must clear them, 64-bit ones use them
+        return {r: rng.getrandbits(64) if rng.random() < 0.5 else rng.getrandbits(32)
+                for r in ["RAX", "RBX", "RCX", "RDX", "RSI", "RDI", "RBP"]}
     return {r: rng.getrandbits(32) for r in ["EAX", "EBX", "ECX", "EDX", "ESI", "EDI", "EBP"]}
 
 
@@ -769,12 +1050,39 @@ def soft_exception_effect(arch, jitter, kind):
     cpu = jitter.cpu
     if kind == "DIV_BY_ZERO":
         # pc stays on the division: give it a divisor and let it execute again
-        cpu.ECX = 3
+        if arch == "aarch64l":
+            cpu.X3 = 3
+        else:
+            cpu.ECX = 3
     else:
-        reg = "EAX" if arch.startswith("x86") else "R0"
+        reg = "RAX" if arch == "x86_64" else "EAX" if arch.startswith("x86") else "X0" if arch == "aarch64l" else "R0"
         num = cpu.interrupt_num & 0xFF if kind == "INT_XX" else 0
         setattr(cpu, reg, (getattr(cpu, reg) + 0x01010101 * (1 + num) + SOFT_EXC_KINDS.index(kind)) & 0xFFFFFFFF)
     cpu.set_exception(0)
+
+
+def scratch_regs(arch):
+    """Registers the generators treat as data (not bases, counters or the stack pointer)."""
+    arch = family(arch)
+    if arch == "arml":
+        return ["R0", "R1", "R2", "R3"]
+    if arch == "aarch64l":
+        return ["X0", "X1", "X2", "X3"]
+    if arch == "mips32l":
+        return ["T0", "T1", "T2", "T3", "V0", "A0", "A1", "T4"]
+    if arch == "x86_64":
+        return ["RAX", "RBX", "RCX", "RDX", "RSI", "RDI", "RBP"]
+    return ["EAX", "EBX", "ECX", "EDX", "ESI", "EDI", "EBP"]
+
+
+def set_regs(j, regs):
+    """cpu.set_gpreg(cpu.get_gpreg()) round trip; JitCore_aarch64's set_gpreg refuses the 8-bit flag
+    entries that its own get_gpreg returns, so fall back to one attribute at a time."""
+    try:
+        j.cpu.set_gpreg(regs)
+    except TypeError:
+        for name, val in regs.items():
+            setattr(j.cpu, name, val)
 
 
 def digest(j, pcregs, held=None):
@@ -1085,6 +1393,11 @@ class TestRun(object):
                 return False
             if a[2] == "data":
                 addr = D0 + 0x300 + (a[3] % 0x40)
+            elif a[2] == "tail":
+                # the last byte in front of the end address: the last byte of the last translated range
+                if "cell8" not in self.prog.labels:
+                    return False
+                addr = self.prog.end - 1
             else:
                 cells = sorted(v for n, v in self.prog.labels.items() if n.startswith("cell"))
                 if cells:
@@ -1291,21 +1604,52 @@ class TestRun(object):
                     return True
                 warm_handlers.append(on_warm)
                 j.add_exception_handler(getattr(e.csts, "EXCEPT_" + kind), on_warm)
+            # the earlier run started from other scratch-register values: what it translated (and patched, in a
+            # self-modifying program) is not what this run is going to see
+            for name in scratch_regs(self.arch):
+                if name in cfg["init_regs"]:
+                    setattr(j.cpu, name, cfg["init_regs"][name] ^ 0x5A5A5A5A)
             j.init_run(self.prog.entry)
-            j.continue_run()
+            try:
+                j.continue_run()
+            except Exception as exc:
+                raise Discard("earlier run of the warm start failed: %s" % type(exc).__name__)
             j.remove_breakpoints_by_callback(fin)
             for h in warm_handlers:
                 j.exceptions_handler.remove_callback(h)
-            # restore the initial state, keep the translated blocks
+            # The host restores the initial state through the memory API, writing the bytes that differ, either
+            # before or after it installs its breakpoints; the translated blocks are kept.  The jitter learns of
+            # writes into translated code the way it always does (EXCEPT_CODE_AUTOMOD raised by vm.set_mem,
+            # served by its own handler).
+            first = (cfg["knobs"].get("cache_limit", 0) + cfg["knobs"].get("maxline", 0)) % 2 == 0
+            if first:
+                self.setup_jitter(j)
             fresh = make_jitter(self.arch, "python", self.prog, cfg["init_regs"], {})
             mem = fresh.vm.get_all_memory()
+            now = j.vm.get_all_memory()
             for a in mem:
-                j.vm.set_mem(a, mem[a]["data"])
-            j.cpu.set_gpreg(fresh.cpu.get_gpreg())
-            j.vm.set_exception(0)
+                want, have = mem[a]["data"], now[a]["data"]
+                i = 0
+                while i < len(want):
+                    if want[i] == have[i]:
+                        i += 1
+                        continue
+                    k = i
+                    while k < len(want) and want[k] != have[k]:
+                        k += 1
+                    j.vm.set_mem(a + i, want[i:k])
+                    if a == CODE:
+                        self.probe("warm_restore_code_bytes", k - i)
+                    i = k
+            set_regs(j, fresh.cpu.get_gpreg())
+            for _ in j.exceptions_handler(j.get_exception(), j):
+                pass
             j.vm.reset_memory_access()
             self.probe("warm_start")
-        self.setup_jitter(j)
+            if not first:
+                self.setup_jitter(j)
+        else:
+            self.setup_jitter(j)
         j.init_run(self.prog.entry)
         guard = 0
         while True:
@@ -1354,7 +1698,7 @@ class TestRun(object):
         if mode == "warm":
             for a in mem:
                 j.vm.set_mem(a, mem[a]["data"])
-            j.cpu.set_gpreg(regs)
+            set_regs(j, regs)
             self.probe("restart_warm")
             j.init_run(pc)
             return j
@@ -1371,7 +1715,7 @@ class TestRun(object):
                 nj.vm.set_mem_access(a, mem[a]["access"])
             else:
                 nj.vm.add_memory_page(a, mem[a]["access"], mem[a]["data"], "restored")
-        nj.cpu.set_gpreg(regs)
+        set_regs(nj, regs)
         nj.vm.set_exception(0)
         nj.vm.reset_memory_access()
         self.setup_jitter(nj)
